@@ -294,10 +294,18 @@ class Ctx:
 
 
 def load_known():
+    """known_findings.json plus per-property fragments tools/props/CXX.known.json (same format; fragments exist
+    so that slices developed in parallel never edit a shared file).  Read-only at run time."""
+    import glob
     p = os.path.join(VERIF, "known_findings.json")
-    if not os.path.exists(p):
-        return {"findings": [], "fixed": []}
-    return json.load(open(p))
+    k = {"findings": [], "fixed": []}
+    if os.path.exists(p):
+        k = json.load(open(p))
+    for f in sorted(glob.glob(os.path.join(VERIF, "tools", "props", "C*.known.json"))):
+        frag = json.load(open(f))
+        k["findings"] += frag.get("findings", [])
+        k["fixed"] += frag.get("fixed", [])
+    return k
 
 
 def match_known(findings, pid, fi):
